@@ -280,7 +280,7 @@ Msgs(ev) ==
 GzDec(c, s) == LET g == GzPrefixOf(c, s.enc) IN IF s.gz /\ g # <<>> THEN g[1].dec ELSE <<>>
 
 Proj(c, s) == [msgs |-> Msgs(s.ev), out |-> s.out, closed |-> s.closed, rej |-> s.rej,
-               gzflux |-> s.gz, gzdec |-> GzDec(c, s)]
+               gzflux |-> s.gz, gzdec |-> GzDec(c, s), gzover |-> s.gz /\ Len(GzDec(c, s)) > s.maxb, maxb |-> s.maxb]
 
 Obs(a, args) == [act |-> a, args |-> args, exp |-> Proj(cfg, r')]
 
